@@ -1187,7 +1187,7 @@ for _flag, _ret in ((False, 'set:name'), (True, 'set:int')):
 # relational product (C13): `_image` against the ghost functions IMG / FIMG on *pairs* of references.
 # For the fixed arbitrary assignment A, with B = A o umap (term A2), IMG(u, v) is "some choice of values for the levels in Q
 # makes u (under B) and v (read through vmap) both true", FIMG the universal dual. Their recursion equations over the frozen
-# entry heap E (lemma L-IMG, lean/BddTheory.lean: they hold for the semantic definitions when vmap keeps the order of v's
+# entry heap E (lemma L-IMG, lean/BddImage.lean: they hold for the semantic definitions when vmap keeps the order of v's
 # levels, which is what the documented adjacency precondition is for) are ASSUMED here as the definition of the ghost.
 EI = State('Eimg')
 IMG = M.z3.Function('IMG', I, I, B) if hasattr(M, 'z3') else None
